@@ -518,6 +518,9 @@ def plan_C06(prop, tier, seed, t0):
     traces = [
         dict(name="cli", engine="sim", args=["--quizx-bin", QUIZX_BIN, "--dir", simdir, "--circuits", 40 if q else 600, "--shots", 6 if q else 12,
                                              "--queries", 5 if q else 10, "--maxq", 3, "--maxlen", 8, "--variants"], **T),
+        # deep T-rich circuits: the decomposer meets cats with adjacent legs, 6-T groups with mixed phases (seeds C06_c, C06_d)
+        dict(name="deep", engine="sim", args=["--quizx-bin", QUIZX_BIN, "--dir", simdir + "_deep", "--circuits", 40 if q else 300, "--shots", 3 if q else 6,
+                                              "--queries", 4 if q else 8, "--minq", 2, "--maxq", 3, "--minlen", 30, "--maxlen", 60, "--alphabet", "ct"], **T),
     ]
     return run_plan(prop, tier, seed, t0, mcs, traces, "model_checking", COMMON_ASSUME + [
                         "printed decimals and the sampler's p are compared at 1e-9 (harness arithmetic) with values derived from the exact scalars that TLC validates",
